@@ -1018,6 +1018,7 @@ pub fn gen_control_flow(rng: &mut Rng, avoid: &Avoid) -> Scenario {
     }
     let mut list = g.top_list(n);
     // handler arming: ON ERROR GOTO H1 somewhere early; optionally GOTO 0 later and re-arm
+    let mut need_h2 = false;
     let mut need_h1 = g.f.handler_in_sub && g.f.handler;
     if g.f.handler {
         need_h1 = true;
@@ -1030,13 +1031,26 @@ pub fn gen_control_flow(rng: &mut Rng, avoid: &Avoid) -> Scenario {
             list.insert(z + 1, s);
             if g.rng.chance(1, 2) && list.len() > z + 3 {
                 let r = z + 2 + g.rng.below(list.len() - z - 2);
-                let s = g.st(StmtKind::OnErrorGoto("H1".into()));
+                let h = if g.rng.chance(1, 2) {
+                    need_h2 = true;
+                    "H2"
+                } else {
+                    "H1"
+                };
+                let s = g.st(StmtKind::OnErrorGoto(h.into()));
                 list.insert(r, s);
             }
         }
     } else if g.f.on_error_resume_next {
         let at = g.rng.below(list.len().min(3) + 1);
         let s = g.st(StmtKind::OnErrorResumeNext);
+        list.insert(at, s);
+    }
+    if g.f.handler && !g.f.on_error_goto_0 && list.len() > 3 && g.rng.chance(1, 4) {
+        // replace the active handler by another one
+        let at = 2 + g.rng.below(list.len() - 2);
+        need_h2 = true;
+        let s = g.st(StmtKind::OnErrorGoto("H2".into()));
         list.insert(at, s);
     }
     if g.f.handler && g.f.on_error_resume_next && list.len() > 3 {
@@ -1140,6 +1154,26 @@ pub fn gen_control_flow(rng: &mut Rng, avoid: &Avoid) -> Scenario {
             }
         }
         main.push(g.st(StmtKind::Resume(kind)));
+    }
+    if need_h2 {
+        main.push(g.st(StmtKind::Label("H2".into())));
+        main.push(g.st(StmtKind::Print {
+            dev: Dev::Screen,
+            items: vec![
+                PItem::E(Expr::Str("H2".into())),
+                PItem::Semi,
+                PItem::E(Expr::Err),
+            ],
+            using: None,
+        }));
+        main.push(g.st(StmtKind::Assign {
+            var: GLOBALS[2].to_string(),
+            expr: Expr::Sub(
+                Box::new(Expr::Var(GLOBALS[2].to_string())),
+                Box::new(Expr::Int(1)),
+            ),
+        }));
+        main.push(g.st(StmtKind::Resume(ResumeKind::Next)));
     }
     let procs = std::mem::take(&mut g.procs);
     Scenario {
